@@ -384,6 +384,17 @@ func c13(c *Ctx) {
 		r.Check(okW, "R2.final-gates", name+" walker-operands", p.Pos(wc.Pos()), "the walker gets (root, key path, proof)", "the walker is not applied to the given root, the key's path and the proof")
 	}
 
+	// ---- R5 no decode/validation error is lost on the state validation path
+	{
+		roots := []*ssa.Function{SV}
+		for _, fn := range p.ModuleFuncs() {
+			if fn.Pkg == sp && fn.Signature.Recv() != nil && core.TypeName(fn.Signature.Recv().Type()) == "Storage" {
+				roots = append(roots, fn)
+			}
+		}
+		lostErrorRule(c, "R5.error-not-lost", "state validation path", roots, []string{"state", "state/trie"})
+	}
+
 	// ---- R3 store writes (state.Storage put* functions)
 	nPut := 0
 	for _, fn := range p.ModuleFuncs() {
